@@ -412,8 +412,8 @@ def check_score(ctx, case):
     changes = [e[0] for e in exp]
     want_list = weighted(changes, weights)
     want = sum(want_list)
-    desc = lambda: "type=%s rooting=%s tree=%s rows=%r weights=%r gaps_as_missing=%r" % (
-        dtype, rooting, rt.canon(ordered=True), m["rows"], weights, gam_arg)
+    desc = lambda: "type=%s rooting=%s tree=%s rows=%r rows_of_non_leaf_taxa=%r weights=%r gaps_as_missing=%r" % (
+        dtype, rooting, rt.canon(ordered=True), m["rows"], m.get("extra_rows") or [], weights, gam_arg)
 
     # -- bookkeeping
     ctx.cls("score.type:" + dtype)
